@@ -51,6 +51,16 @@ def job_seed(name):
     finally:
         shutil.rmtree(tmp, ignore_errors=True)
     rules = sorted({l.split()[1] for l in lines if l.startswith('FINDING')})
+    try:
+        mp = d + '/meta.json'
+        m = json.load(open(mp))
+        m['check_rc_with_change'], m['detected'], m['detected_by_rules'] = rc, rc == 1, rules
+        m['ran'] = 'tools/par_patches.py seeds %s  (scratch copy of /repo with seeded/%s/patch.diff applied; ./check %s --root <copy>)' % (name, name, prop)
+        json.dump(m, open(mp, 'w'), indent=1)
+        with open(d + '/check_output.txt', 'w') as f:
+            f.write('\n'.join([l for l in out.splitlines() if l.startswith(('FINDING', 'VIOLATION', 'RESULT', 'ANALYSIS-ERROR', 'KNOWN-FINDING'))][:60]) + '\n')
+    except Exception:
+        pass
     return name, '%s rc=%d rules=%s%s' % (prop, rc, ' '.join(rules), '' if rc == 1 else '  <<<<<< ' + ' | '.join(lines[:2])[:300]), rc == 1
 
 
